@@ -649,3 +649,34 @@ pub fn post_notif(s: &mut Simk, id: u64) -> Cqe {
 pub fn post_raw(s: &mut Simk, ring_fd: i32, cqe: Cqe) {
     post_cqe(s, ring_fd, cqe);
 }
+
+/// Complete a read-like request with exactly `data` (scripted kernel content).
+/// With `decoy` the rest of the buffer the request offered is filled with it
+/// (the memory is the kernel's until the completion is posted).
+pub fn complete_data(s: &mut Simk, id: u64, data: &[u8], decoy: Option<&[u8]>) -> Cqe {
+    let (sqe, ring_fd) = {
+        let r = &s.reqs[&id];
+        (r.sqe.clone(), r.ring)
+    };
+    assert!(matches!(sqe.opcode(), OP_READ | OP_RECV) && !sqe.buffer_select(), "complete_data: unsupported request");
+    let n = data.len().min(sqe.len() as usize);
+    unsafe {
+        wr_bytes(sqe.addr(), &data[..n]);
+        if let Some(d) = decoy {
+            let rest = sqe.len() as usize - n;
+            let fill: Vec<u8> = d.iter().copied().cycle().take(rest).collect();
+            wr_bytes(sqe.addr() + n as u64, &fill);
+        }
+    }
+    s.counters.mem_writes += 1;
+    let cqe = Cqe { user_data: sqe.user_data(), res: n as i32, flags: 0 };
+    {
+        let r = s.reqs.get_mut(&id).unwrap();
+        r.posted.push(cqe);
+        r.produced.push(data[..n].to_vec());
+        r.state = ReqState::Done;
+    }
+    alloc::release_except(id, what::STATE);
+    super::enter::post_cqe_for(s, ring_fd, cqe, id);
+    cqe
+}
